@@ -1,4 +1,5 @@
 import Ftp.Model.ClientTls
+import Ftp.Lemmas.ClientTls
 /-
   C11 - with TLS configured nothing but AUTH TLS travels in clear text.
   Model: `Ftp.ClientTls` (connect / AUTH TLS / handshake, login with PBSZ and PROT, data-connection handshake
@@ -37,47 +38,103 @@ def SessionOp.run : SessionOp → MT Unit
   | .upload v p => do let _ ← uploadT v p; pure ()
   | .list p n => do let _ ← fileListT p n; pure ()
 
+/-! the definitions above and their copies in `Ftp.ClientTls.L` (used by the helper lemmas) agree -/
+
+private theorem plainWrites_eq (tr : List EvT) : plainWrites tr = L.plainWrites tr := rfl
+private theorem allWrites_eq (tr : List EvT) : allWrites tr = L.allWrites tr := rfl
+private theorem isPayload_eq (e : EvT) : isPayload e = L.payloadT e := by
+  cases e with
+  | ev t e0 => cases e0 <;> rfl
+  | _ => rfl
+private theorem keep_eq :
+    (fun e : EvT => match e with | .ev _ (.obsReply _ _ _) | .ev _ (.dataAccept _ _) => false | _ => true) = L.keepT := by
+  funext e
+  cases e with
+  | ev t e0 => cases e0 <;> rfl
+  | _ => rfl
+
+private theorem op_tag (op : SessionOp) : L.AllT L.TagOk op.run := by
+  cases op with
+  | login u p => exact L.allT_discard (L.q3_tag (L.loginT_q3 u p))
+  | simple v a => exact L.allT_discard (L.q3_tag (L.q3_lift (L.simple_np v a)))
+  | download p => exact L.allT_discard (L.downloadT_tag p)
+  | upload v p => exact L.allT_discard (L.uploadT_tag v p)
+  | list p n => exact L.allT_discard (L.fileListT_tag p n)
+
+private theorem op_shape (op : SessionOp) (w : WorldT) :
+    L.SatT op.run w (fun r _ evs => L.Shape w (r = .throw) evs) := by
+  cases op with
+  | login u p => exact L.satT_discard (Q := fun t _ evs => L.Shape w t evs) (L.shape_q3 (L.loginT_q3 u p) w)
+  | simple v a =>
+    exact L.satT_discard (Q := fun t _ evs => L.Shape w t evs) (L.shape_q3 (L.q3_lift (L.simple_np v a)) w)
+  | download p => exact L.satT_discard (Q := fun t _ evs => L.Shape w t evs) (L.downloadT_shape p w)
+  | upload v p => exact L.satT_discard (Q := fun t _ evs => L.Shape w t evs) (L.uploadT_shape v p w)
+  | list p n => exact L.satT_discard (Q := fun t _ evs => L.Shape w t evs) (L.fileListT_shape p n w)
+
+private theorem op_tag_added (op : SessionOp) (w : WorldT) :
+    L.cfg (afterT op.run w) = L.cfg w ∧ ∀ e ∈ addedT op.run w, L.TagOk (L.cfg w) e := (op_tag op w).added
+
+private theorem op_shape_added (op : SessionOp) (w : WorldT) :
+    L.Shape w (resultT op.run w = .throw) (addedT op.run w) := (op_shape op w).added
+
+private theorem auth_eq : AUTH = L.AUTHL := by decide
+
+private theorem connect_added (host : Bytes) (port : Nat) (cred : Option (Bytes × Bytes)) (w : WorldT)
+    (h : w.tlsCtx = true) :
+    L.ConnPost (resultT (connectT host port cred) w) (afterT (connectT host port cred) w)
+      (addedT (connectT host port cred) w) := (L.connectT_spec host port cred w h).added
+
 /-- connecting with a TLS context - whatever the server answers, whether or not the handshake succeeds, with or
     without credentials: the only command line ever written in clear text is `AUTH TLS` -/
 theorem connect_plaintext_is_auth_only (host : Bytes) (port : Nat) (cred : Option (Bytes × Bytes)) (w : WorldT)
     (h : w.tlsCtx = true) :
     plainWrites (addedT (connectT host port cred) w) = [] ∨ plainWrites (addedT (connectT host port cred) w) = [AUTH] := by
-  sorry
+  rw [plainWrites_eq, auth_eq]
+  exact L.connPost_plain (connect_added host port cred w h)
 
 /-- ... and it is the first command of the connection -/
 theorem auth_is_first (host : Bytes) (port : Nat) (cred : Option (Bytes × Bytes)) (w : WorldT) (h : w.tlsCtx = true) :
     allWrites (addedT (connectT host port cred) w) = [] ∨ (allWrites (addedT (connectT host port cred) w)).head? = some AUTH := by
-  sorry
+  rw [allWrites_eq, auth_eq]
+  exact L.connPost_first (connect_added host port cred w h)
 
 /-- after `AUTH TLS` the next step of the client is the TLS handshake - or, when the server refused, nothing at all:
     no credentials, no further command -/
 theorem after_auth_handshake_or_stop (host : Bytes) (port : Nat) (cred : Option (Bytes × Bytes)) (w : WorldT)
     (h : w.tlsCtx = true) :
-    (∀ ok, EvT.ctlTlsHandshake ok ∉ addedT (connectT host port cred) w →
+    ((∀ ok, EvT.ctlTlsHandshake ok ∉ addedT (connectT host port cred) w) →
         allWrites (addedT (connectT host port cred) w) = [] ∨ allWrites (addedT (connectT host port cred) w) = [AUTH]) ∧
     (EvT.ctlTlsHandshake false ∈ addedT (connectT host port cred) w →
         resultT (connectT host port cred) w = .throw ∧ allWrites (addedT (connectT host port cred) w) = [AUTH] ∧
         (addedT (connectT host port cred) w).getLast? = some (EvT.ctlTlsHandshake false)) := by
-  sorry
+  rw [allWrites_eq, auth_eq]
+  exact ⟨fun hn => L.connPost_stop (connect_added host port cred w h) hn,
+    fun hm => L.connPost_fail (connect_added host port cred w h) hm⟩
 
 /-- a successful connect with a TLS context leaves the control channel protected -/
 theorem connect_protects (host : Bytes) (port : Nat) (cred : Option (Bytes × Bytes)) (w : WorldT) (h : w.tlsCtx = true)
     (hs : EvT.ctlTlsHandshake true ∈ addedT (connectT host port cred) w) :
-    (afterT (connectT host port cred) w).ctlTls = true := by
-  sorry
+    (afterT (connectT host port cred) w).ctlTls = true :=
+  L.connPost_protects (connect_added host port cred w h) hs
 
 /-- between connect and logout / disconnect every call of a protected session writes every command inside TLS, and
     leaves the session protected -/
 theorem session_stays_protected (op : SessionOp) (w : WorldT) (h : w.ctlTls = true) :
     plainWrites (addedT op.run w) = [] ∧ (afterT op.run w).ctlTls = true := by
-  sorry
+  obtain ⟨hc, ht⟩ := op_tag_added op w
+  refine ⟨?_, ?_⟩
+  · rw [plainWrites_eq]; exact L.tag_plain ht h
+  · have : (afterT op.run w).ctlTls = w.ctlTls := congrArg (fun k => k.2.2) hc
+    rw [this, h]
 
 /-- the data connection's handshake takes place before the first payload byte moves: no payload event precedes it, and
     with a TLS context no payload event happens in a call that has no successful data handshake -/
 theorem data_handshake_before_payload (op : SessionOp) (w : WorldT) (h : w.tlsCtx = true) :
     ∀ pre e post, addedT op.run w = pre ++ e :: post → isPayload e = true →
       ∃ d offered, EvT.dataTlsHandshake d offered true ∈ pre := by
-  sorry
+  intro pre e post hs hp
+  rw [isPayload_eq] at hp
+  exact L.shape_before_payload (op_shape_added op w) h hs hp
 
 /-- ... and after the transfer command was accepted: the event before the handshake (observer notifications and the
     accept of an active-mode connection aside) is the framing of a non-negative reply -/
@@ -86,13 +143,15 @@ theorem data_handshake_after_acceptance (op : SessionOp) (w : WorldT) (pre post 
     ∃ tls c t pre', c < 400 ∧
       pre.filter (fun e => match e with | .ev _ (.obsReply _ _ _) | .ev _ (.dataAccept _ _) => false | _ => true) =
         pre' ++ [EvT.ev tls (.ctlReply c t)] := by
-  sorry
+  rw [keep_eq]
+  exact L.shape_after_acceptance (op_shape_added op w) hsplit
 
 /-- a failed data handshake is reported and no payload moves -/
 theorem data_handshake_failure_stops (op : SessionOp) (w : WorldT) (d : Nat) (offered : Bool)
     (hf : EvT.dataTlsHandshake d offered false ∈ addedT op.run w) :
     resultT op.run w = .throw ∧ ∀ e ∈ addedT op.run w, isPayload e = false := by
-  sorry
+  obtain ⟨h1, h2⟩ := L.shape_failure (op_shape_added op w) hf
+  exact ⟨h1, fun e he => by rw [isPayload_eq]; exact h2 e he⟩
 
 /-- a download whose data stream ends in an error (the TLS layer reports a missing close-notify as an error, not as
     end-of-file; see C03.read_error_is_reported for the read loop itself) is never returned as a completed transfer:
@@ -102,6 +161,17 @@ theorem truncated_stream_is_an_error (path : Bytes) (w : WorldT) (hp : Endpoint.
     (hready : createDataConnectionT (str "RETR" ++ [SP] ++ path) Replies.empty w = (.ok (true, rs), w'))
     (hthrow : resultT (lift (dataRecv false w'.base.ttype)) w' = .throw) :
     resultT (downloadT path) w = .throw := by
-  sorry
+  have hmk : lift (mkCmd "RETR" (some path)) w = (.ok (str "RETR" ++ [SP] ++ path), w) := by
+    rw [L.lift_mkCmd]; simp [Endpoint.makeCommand, hp]
+  unfold resultT at hthrow ⊢
+  unfold downloadT ClientTls.scopedT
+  simp only [L.bindT_eq, hmk, hready, if_true]
+  have hget : getT w' = (.ok w', w') := rfl
+  simp only [hget]
+  rcases hl : lift (dataRecv false w'.base.ttype) w' with ⟨r, w2⟩
+  rw [hl] at hthrow
+  simp only at hthrow
+  subst hthrow
+  rfl
 
 end Ftp.Props.C11
